@@ -155,6 +155,7 @@ func genHonestPairs(c *core.Ctx, bt *batcher) {
 	}
 	cshapes := []shape{{[]string{"AES"}, []string{"AES"}}, {[]string{"AES"}, nil}}
 	var specs []honestSpec
+	nonReq := []string{"OPTIONAL", "NEVER", "PREFERRED"} // Integrity rotates over the non-REQUIRED levels
 	n := 0
 	for _, ca := range fourLevels {
 		for _, sa := range fourLevels {
@@ -167,8 +168,8 @@ func genHonestPairs(c *core.Ctx, bt *batcher) {
 								continue
 							}
 							specs = append(specs, honestSpec{"honest",
-								peer.Policy{Auth: ca, Enc: ce, Integ: "OPTIONAL", Methods: ms.C, Ciphers: cs.C, Command: 60007},
-								peer.Policy{Auth: sa, Enc: se, Integ: "OPTIONAL", Methods: ms.S, Ciphers: cs.S}})
+								peer.Policy{Auth: ca, Enc: ce, Integ: nonReq[n%3], Methods: ms.C, Ciphers: cs.C, Command: 60007},
+								peer.Policy{Auth: sa, Enc: se, Integ: nonReq[(n/3)%3], Methods: ms.S, Ciphers: cs.S}})
 						}
 					}
 				}
